@@ -44,9 +44,51 @@ pub fn depth_profiles(sink: &mut Sink, cfg: &str, r: &mut Rng) {
     }
 }
 
-pub fn run(sink: &mut Sink, thorough: bool, seed: u64) {
+/// C14: pathological sizes; only "terminates without panicking, with the expected class" is observed
+pub fn big(sink: &mut Sink, cfg: &str) {
+    fn class<T>(r: Result<T, serde_json::Error>) -> String { match r { Ok(_) => "ok".into(), Err(e) => format!("err:{}", cat_name(&e)) } }
+    let n = 1_000_000usize;
+    let mut cases: Vec<(&str, Vec<u8>)> = vec![];
+    cases.push(("deep-array-open", vec![b'['; n]));
+    let mut d = vec![b'['; n]; d.extend(vec![b']'; n]); cases.push(("deep-array-balanced", d));
+    let mut d: Vec<u8> = vec![]; for _ in 0..200_000 { d.extend_from_slice(b"{\"a\":"); } cases.push(("deep-object-open", d));
+    let mut d = vec![b'"']; d.extend(vec![b'a'; 4 * n]); d.push(b'"'); cases.push(("long-string", d));
+    let mut d = vec![b'"']; for _ in 0..n { d.extend_from_slice(b"\\u00e9"); } d.push(b'"'); cases.push(("long-escapes", d));
+    let mut d = vec![b'1']; d.extend(vec![b'0'; n]); cases.push(("long-integer", d));
+    let mut d = b"0.".to_vec(); d.extend(vec![b'0'; n]); d.push(b'1'); cases.push(("long-fraction", d));
+    let mut d = b"1e".to_vec(); d.extend(vec![b'9'; n]); cases.push(("huge-exponent", d));
+    let mut d = b"1e-".to_vec(); d.extend(vec![b'9'; n]); cases.push(("huge-neg-exponent", d));
+    let mut d: Vec<u8> = vec![b'[']; for _ in 0..n { d.extend_from_slice(b"0,"); } d.push(b'0'); d.push(b']'); cases.push(("wide-array", d));
+    for (name, data) in cases {
+        let d1 = data.clone(); let d2 = data.clone(); let d3 = data.clone();
+        let v = std::panic::catch_unwind(move || class(serde_json::from_slice::<serde_json::Value>(&d1))).unwrap_or("PANIC".into());
+        let i = std::panic::catch_unwind(move || class(serde_json::from_slice::<serde::de::IgnoredAny>(&d2))).unwrap_or("PANIC".into());
+        let rd = std::panic::catch_unwind(move || class(serde_json::from_reader::<_, serde_json::Value>(Chunked::new(&d3, vec![4096])))).unwrap_or("PANIC".into());
+        sink.case("big", &[cfg, name], &format!("{}|{}|{}", v, i, rd), &format!("big:{}", name), true);
+    }
+}
+
+pub fn run(sink: &mut Sink, prop: &str, thorough: bool, seed: u64) {
     let mut r = Rng::new(seed);
     let cfg = cfg_tag();
+    if prop == "C14" {
+        big(sink, &cfg);
+        // random bytes
+        for _ in 0..(if thorough { 200000 } else { 20000 }) {
+            let n = r.below(24);
+            let b: Vec<u8> = (0..n).map(|_| if r.chance(3, 4) { *r.pick(b"[]{},:\"\\u0123456789aeE+-.ntfls \n") } else { r.next() as u8 }).collect();
+            emit(sink, &cfg, &b, &mut r, "rand");
+        }
+    }
+    if prop == "C09" || prop == "C11" {
+        // multi-line documents and their mutations, several chunkings each
+        for _ in 0..(if thorough { 20000 } else { 2000 }) {
+            let mut d = gen_doc(&mut r, 3);
+            for b in d.iter_mut() { if *b == b' ' && r.chance(1, 2) { *b = b'\n'; } }
+            emit(sink, &cfg, &d, &mut r, "mldoc");
+            for _ in 0..4 { let m = mutate(&d, &mut r); emit(sink, &cfg, &m, &mut r, "mlmut"); }
+        }
+    }
     let toks = tokens();
     let n = if thorough { 4 } else { 3 };
     emit(sink, &cfg, b"", &mut r, "exh0");
